@@ -208,6 +208,7 @@ def _surface_cfg_shapes(tier):
     out.append(dict(pu=1, pv=1, mu=[], mv=[], rational=False, span='binsearch', alt=False, orders='above_pu'))
     out.append(dict(pu=1, pv=1, mu=[], mv=[], rational=False, span='linear', alt=True, orders='above_pu'))
     out.append(dict(pu=2, pv=1, mu=[1], mv=[], rational=False, span='linear', alt=True, orders='above_pu'))
+    out.append(dict(pu=1, pv=2, mu=[], mv=[1], rational=False, span='linear', alt=True, orders='above_pu'))       # degree_u < degree_v
     out.append(dict(pu=1, pv=1, mu=[], mv=[1], rational=True, span='binsearch', alt=False, orders='upto_pu'))
     out.append(dict(pu=2, pv=1, mu=[], mv=[], rational=True, span='binsearch', alt=False, orders='upto_pu'))
     return out
